@@ -667,8 +667,11 @@ def search(ctx):
     for s0 in range(0, len(chains), step):
         res += impl(ctx, ["compose"], stdin=json.dumps({"chains": chains[s0:s0 + step], "k": 3, "points": pts, "convert_params": (80 if ctx.quick else 600) if s0 == 0 else 0}), timeout=2400)
     nfail = 0
+    st = {"chains": len(chains), "shortened": 0, "points_compared": 0, "points_outside_domain": 0, "with_nan": 0, "convert_params_compared": 0}
+    rep.extra["search_stats"] = st
     for ch, r in zip(chains, res):
         shortened = len(r["after"]) != len(ch)
+        st["shortened"] += shortened
         rep.case(key=("compose", tuple(ch)), nontrivial=shortened, sample={"chain": ch, "after_cancellation": r["after"]} if shortened else None)
         if nfail >= 3:
             continue
@@ -679,10 +682,13 @@ def search(ctx):
             continue
         # only adjacent equal pairs of self-inverse strings may disappear
         if "before" not in r:
+            st["with_nan"] += 1
             continue
         for pt, vb, va in zip(pts, r["before"], r["aft"]):
             if any(isinstance(x, str) for x in vb):
+                st["points_outside_domain"] += 1
                 continue          # original chain undefined at this point: outside the common domain
+            st["points_compared"] += 1
             if not all(close(a, b, 1e-9) for a, b in zip(vb, va)):
                 nfail += 1
                 rep.fail("failing-input", "composition of the chain changes under simplify_inv_subs at a=%r" % (pt,), "C17:cancel:composition",
@@ -692,6 +698,7 @@ def search(ctx):
             for (b, a) in r["cp"]:
                 if isinstance(b, str) or isinstance(a, str):
                     continue
+                st["convert_params_compared"] += 1
                 if not all(close(x, y, 1e-7) for x, y in zip(b, a)):
                     nfail += 1
                     rep.fail("failing-input", "convert_params gives different parameters before/after simplify_inv_subs", "C17:cancel:convert-params",
